@@ -13,18 +13,30 @@ TIERS = {
     'thorough': dict(shards=16, cases=3000, steps=60),
 }
 RULE = ('case = one value-spec-less pg.List or pg.Dict (0-6 initial members, str '
-        'and int keys, nested containers) and a history of operations from the '
+        'and int keys incl. negative/zero ints and digit-only strings, nested '
+        'containers; 40% of the cases a container of containers whose members are '
+        'equal / nearly equal rows) and a history of operations from the '
         'whole list/dict API (indices/slices in [-len-2, len+2], steps in '
-        '{None,1,2,3,-1,-2}) applied to it or to a nested container, mirrored on a '
-        'built-in list/dict; outcome and all read paths compared after every '
-        'step. Non-trivial = at least 5 steps changed the container; distinct by '
-        '(operation sequence, final contents).')
-REQUIRED_COUNTERS = ['steps', 'read_checks', 'outcome_both_raise', 'outcome_both_ok']
+        '{None,1,2,3,-1,-2}) applied to it or to a nested container, plus '
+        'multi-path rebinds from a common ancestor that edit several member '
+        'containers at once (the same or independent deletions / insertions / '
+        'replacements / appends per member), each step with change notification '
+        'on, off (pg.notify_on_change(False)) or skip_notification=True; mirrored '
+        'on a built-in (nested) list/dict; outcome and all read paths (incl. the '
+        'JSON value and JSON string round trips) of the root and of one nested '
+        'container compared after every step. Non-trivial = at least 5 steps '
+        'changed the container; distinct by (operation sequence, final contents).')
+REQUIRED_COUNTERS = ['steps', 'read_checks', 'outcome_both_raise', 'outcome_both_ok',
+                     'steps_notify_off', 'multi_member_rebinds', 'multi_member_rebinds_notify_off',
+                     'nested_read_rounds']
 ASSUMPTIONS = [
     'CPython list/dict semantics are the reference',
     'documented extensions are modelled: MISSING_VALUE deletes, rebind past the end appends, Insertion inserts, plain containers become symbolic',
     'a batch rebind never has two targets past the end of one list, nor a target that is a prefix of another (unspecified order)',
     'NaN is not used as a value (identity vs equality is not part of the claim)',
+    'several writes of one batch into a list other than the rebind receiver contain no Insertion and no index past the end (positions relative to the call-time list only then)',
+    'change notification (scope flag, skip_notification, notify_parents) is not part of container semantics: the same reference applies',
+    'JSON marker collisions (str keys starting with n_:, the key _type, a list starting with the str __tuple__) are C05 findings and not generated',
 ]
 
 
@@ -43,14 +55,100 @@ def leaf(rng):
 
 def keygen(rng):
   r = rng.random()
-  if r < 0.65:
+  if r < 0.6:
     return rng.choice(V.SAFE_KEYS)
   if r < 0.85:
-    return rng.randint(0, 3)
-  return rng.choice(['0', '1', 'x y', 'é', 'a-b', 'a.b', 'p.q', '[0]', 'a[1]'])
+    return rng.choice([0, 0, 1, 2, 3, -1, -1, -2, -3, -12, 10, 255])
+  return rng.choice(['0', '1', '-1', '00', '12', 'x y', 'é', 'a-b', 'a.b', 'p.q', '[0]',
+                     'a[1]'])
+
+
+def vary_key(rng, k):
+  """Widens the int keys the shared generators draw (0..4) to negative ints
+  and to digit-only strings."""
+  if isinstance(k, int) and not isinstance(k, bool):
+    r = rng.random()
+    if r < 0.3:
+      return -k - (1 if r < 0.15 else 0)
+    if r < 0.38:
+      return str(k) if r < 0.34 else str(-k)
+  return k
+
+
+def vary_keys_in_desc(rng, d):
+  if d[0] in ('D', 'd'):
+    items, seen = [], []
+    orig = [kk for kk, _ in d[1]]
+    for k, v in d[1]:
+      k2 = vary_key(rng, k)
+      if k2 != k and (k2 in seen or k2 in orig):
+        k2 = k
+      seen.append(k2)
+      items.append([k2, vary_keys_in_desc(rng, v)])
+    return [d[0], items] + list(d[2:])
+  if d[0] in ('L', 'l'):
+    return [d[0], [vary_keys_in_desc(rng, v) for v in d[1]]] + list(d[2:])
+  if d[0] == 'ins':
+    return ['ins', vary_keys_in_desc(rng, d[1])]
+  return d
+
+
+def row_leaf(rng):
+  """Few distinct values: rows of a table are often equal."""
+  r = rng.random()
+  if r < 0.8:
+    return rng.randint(0, 4)
+  return rng.choice(['a', 'b', None, True, 0.5])
+
+
+def gen_row(rng, depth=0):
+  r = rng.random()
+  if r < 0.6 or depth >= 1:
+    return [rng.choice('Ll'), [['v', row_leaf(rng)] for _ in range(rng.randint(1, 4))]]
+  if r < 0.8:
+    ks = rng.sample(['a', 'b', 'c', 0, 1, -1, '0'], rng.randint(1, 3))
+    return [rng.choice('Dd'), [[k, ['v', row_leaf(rng)]] for k in ks]]
+  first = gen_row(rng, depth + 1)
+  return [rng.choice('Ll'), [row_variant(rng, first, depth + 1)
+                             for _ in range(rng.randint(2, 3))]]
+
+
+def row_variant(rng, row, depth=0):
+  """An equal copy of `row`, a copy that differs in one member, or a new row."""
+  r = rng.random()
+  if r < 0.5:
+    return copy.deepcopy(row)
+  if r < 0.8 and row[1]:
+    new = copy.deepcopy(row)
+    i = rng.randrange(len(new[1]))
+    if row[0] in 'Dd':
+      new[1][i][1] = ['v', row_leaf(rng)]
+    elif new[1][i][0] == 'v':
+      new[1][i] = ['v', row_leaf(rng)]
+    return new
+  return gen_row(rng, depth)
+
+
+def initial_table(rng):
+  """A container whose members are (often equal) containers."""
+  n = rng.randint(2, 5)
+  first = gen_row(rng)
+  rows = [first] + [row_variant(rng, first) for _ in range(n - 1)]
+  if rng.random() < 0.3:
+    rows.insert(rng.randint(0, len(rows)), ['v', leaf(rng)])
+  if rng.random() < 0.5:
+    return ['L', rows]
+  ks = []
+  while len(ks) < len(rows):
+    k = keygen(rng)
+    if k not in ks:
+      ks.append(k)
+  return ['D', [[k, r] for k, r in zip(ks, rows)]]
 
 
 def initial(rng):
+  if rng.random() < 0.4:
+    return initial_table(rng)
   kind = rng.choice(['L', 'D'])
   n = rng.randint(0, 6)
   def val(d):
@@ -94,8 +192,8 @@ class Values:
         return ['node', ri, ks]
     if r < 0.6:
       return ['v', leaf(rng)]
-    return D.gen(rng, 2, leaf=leaf, classes=(), typed=False, leaves=False,
-                 int_keys=True)
+    return vary_keys_in_desc(rng, D.gen(rng, 2, leaf=leaf, classes=(), typed=False,
+                                        leaves=False, int_keys=True))
 
 
 def rebind_ok(step, node):
@@ -116,12 +214,21 @@ def rebind_ok(step, node):
         if any(len(r2) > len(p) + 1 and r2[:len(p)] == p for r2, _ in ups):
           return False
         # Several writes into one list are applied relative to the original
-        # positions only when rebind is called on that list itself.
-        if p and sum(1 for r2, _ in ups if r2[:-1] == p) > 1:
+        # positions only when rebind is called on that list itself, or when
+        # none of them inserts or appends (a deletion keeps its position
+        # until the whole batch is applied).
+        same = [(r2, v2) for r2, v2 in ups if r2[:-1] == p]
+        if p and len(same) > 1 and any(
+            v2[0] == 'ins' or r2[-1] >= len(O.node_at(node, p)) for r2, v2 in same):
           return False
   for rel, v in ups:
     parent = O.node_at(node, rel[:-1])
     if isinstance(parent, pg.List) and isinstance(rel[-1], int) and rel[-1] >= len(parent):
+      tails[id(parent)] = tails.get(id(parent), 0) + 1
+    # A list receiver applies its batch in reverse path order (documented), so
+    # the relative order of two keys it adds to one dict is left open as well.
+    if (isinstance(node, pg.List) and isinstance(parent, pg.Dict)
+        and v[0] != 'missing' and not parent.sym_hasattr(rel[-1])):
       tails[id(parent)] = tails.get(id(parent), 0) + 1
     if isinstance(parent, pg.Dict) and v[0] == 'ins':
       return False
@@ -130,9 +237,122 @@ def rebind_ok(step, node):
   return all(c <= 1 for c in tails.values())
 
 
-def gen_step(rng, forest):
+def member_containers(node, max_depth=2):
+  """Relative key sequences of the containers below `node` (depth 1..max)."""
+  out = []
+  def walk(n, prefix, depth):
+    for k, c in n.sym_items():
+      if isinstance(c, (pg.List, pg.Dict)):
+        out.append(prefix + [k])
+        if depth < max_depth:
+          walk(c, prefix + [k], depth + 1)
+  walk(node, [], 1)
+  return out
+
+
+def gen_member_edit(rng, g, cont, rel, kind, pos):
+  """Writes (relative to the ancestor) that edit one member container."""
+  if isinstance(cont, pg.List):
+    n = len(cont)
+    i = min(pos, n - 1) if pos is not None else (rng.randrange(n) if n else 0)
+    if kind == 'app' or n == 0:
+      return [[rel + [n + rng.choice([0, 0, 2])], g.value(cont, 0)]]
+    if kind == 'del':
+      return [[rel + [i], ['missing']]]
+    if kind == 'ins':
+      return [[rel + [i], ['ins', g.value(cont, 0)]]]
+    if kind == 'del2' and n >= 2:
+      idxs = sorted(rng.sample(range(n), rng.randint(2, min(3, n))))
+      return [[rel + [j], ['missing'] if rng.random() < 0.8 else g.value(cont, 0)]
+              for j in idxs]
+    return [[rel + [i], g.value(cont, 0)]]
+  keys = list(cont.sym_keys())
+  if kind in ('del', 'del2') and keys:
+    k = keys[min(pos, len(keys) - 1)] if pos is not None else rng.choice(keys)
+    return [[rel + [k], ['missing']]]
+  if keys and rng.random() < 0.6:
+    k = keys[min(pos, len(keys) - 1)] if pos is not None else rng.choice(keys)
+  else:
+    k = keygen(rng)
+  return [[rel + [k], g.value(cont, k)]]
+
+
+def gen_multi_rebind(rng, forest):
+  """One rebind from a common ancestor that edits several member containers
+  (siblings, cousins, nested ones) in a single batch."""
+  cands = []
+  for ridx, keys, node in H.all_nodes(forest):
+    if isinstance(node, (pg.List, pg.Dict)):
+      ms = member_containers(node)
+      if len(ms) >= 2:
+        cands.append((ridx, keys, node, ms))
+  if not cands:
+    return None
+  roots = [c for c in cands if not c[1]]
+  ridx, keys, node, ms = rng.choice(roots if roots and rng.random() < 0.6 else cands)
+  depth = rng.choice(sorted({len(m) for m in ms}))
+  level = [m for m in ms if len(m) == depth]
+  if len(level) < 2 or rng.random() < 0.15:
+    level = ms
+  rng.shuffle(level)
+  chosen = O.no_prefix_pairs(level)[:rng.randint(2, 4)]
+  if len(chosen) < 2:
+    return None
+  g = O.GenEnv(rng, Values(forest, (ridx, keys)), forest)
+  kinds = ['del', 'del', 'ins', 'set', 'app', 'del2']
+  same = rng.random() < 0.6
+  kind, pos = rng.choice(kinds), rng.choice([None, 0, 0, 1, 2])
+  shared = g.value(None, None) if rng.random() < 0.5 else None
+  ups = []
+  for rel in chosen:
+    if not same:
+      kind, pos = rng.choice(kinds), None
+    for r2, v in gen_member_edit(rng, g, O.node_at(node, rel), rel, kind, pos):
+      if same and shared is not None and v[0] not in ('missing', 'node'):
+        v = ['ins', shared] if v[0] == 'ins' else shared
+      ups.append([r2, v])
+  if rng.random() < 0.2:
+    # ... together with an ordinary write somewhere else below the ancestor.
+    extra = rng.choice(O.rel_targets(node, rng))
+    if not any(extra[:len(r)] == r or r[:len(extra)] == extra for r, _ in ups):
+      ups.append([extra, g.value(None, None)])
+  rng.shuffle(ups)
+  return {'op': 'rebind', 'at': [ridx, keys], 'multi': True,
+          'args': {'updates': ups, 'opts': {}, 'form': 'dict',
+                   'style': rng.choice(['raw', 'keypath', 'str']),
+                   'api': rng.choice(['rebind', 'rebind', 'sym_rebind'])}}
+
+
+def vary_arg_keys(rng, name, args):
+  """Negative int / digit-only str keys for the dict operations."""
+  if not name.startswith('Dict.') or name in ('Dict.__setattr__', 'Dict.__delattr__'):
+    return
+  if 'k' in args:
+    args['k'] = vary_key(rng, args['k'])
+  if 'items' in args:
+    ks = [k for k, _ in args['items']]
+    for it in args['items']:
+      k2 = vary_key(rng, it[0])
+      if k2 != it[0] and k2 not in ks:
+        ks[ks.index(it[0])] = k2
+        it[0] = k2
+
+
+def gen_step(rng, forest, p_multi=0.0):
+  step = None
+  if rng.random() < p_multi:
+    for _ in range(5):
+      step = gen_multi_rebind(rng, forest)
+      if step is None:
+        break
+      node = D.resolve(forest, *step['at'])
+      if rebind_ok(step, node):
+        break
+      step = None
   nodes = H.all_nodes(forest)
   for _ in range(30):
+    if step is not None:
+      break
     ridx, keys, node = rng.choice(nodes)
     cands = [o for o in O.ops_for(node, ('mutate', 'new')) if o.name in R.MODEL_OPS]
     o = rng.choice(cands)
@@ -140,13 +360,23 @@ def gen_step(rng, forest):
     args = o.gen(g, node)
     if args is None:
       continue
-    step = {'op': o.name, 'at': [ridx, keys], 'args': args, 'scopes': []}
+    vary_arg_keys(rng, o.name, args)
+    step = {'op': o.name, 'at': [ridx, keys], 'args': args}
     if o.name == 'rebind':
       args['opts'] = {}
       if not rebind_ok(step, node):
-        continue
-    return step
-  return None
+        step = None
+  if step is None:
+    return None
+  # Change notification is not part of the container semantics: every
+  # operation is also driven with notification off.
+  step['scopes'] = ['notify_off'] if rng.random() < 0.2 else []
+  if step['op'] == 'rebind':
+    if rng.random() < 0.25:
+      step['args']['opts']['skip_notification'] = True
+    if rng.random() < 0.1:
+      step['args']['opts']['notify_parents'] = False
+  return step
 
 
 def model_execute(model, step):
@@ -160,7 +390,7 @@ def model_execute(model, step):
     return 'raise', e, node
 
 
-def read_checks(ctx, rng, root, m):
+def read_checks(ctx, rng, root, m, json_paths=True):
   """All read paths of the symbolic container must agree with the model.
 
   Returns [(clause, detail)]; clause 'contents' means the stored state itself
@@ -191,6 +421,22 @@ def read_checks(ctx, rng, root, m):
   chk('eq-plain', lambda: ((root == m), (m == root), (root != m)),
       lambda: (True, True, False))
   chk('to_json', lambda: pg.to_json(root), lambda: m)
+  if json_paths:
+    # JSON conversion agrees with the reference: what is written can be read
+    # back as the same container (contents, order, key types), both through
+    # JSON values and through the JSON string.
+    def back(v):
+      if not isinstance(v, type(root)):
+        raise AssertionError(f'read back as {type(v).__name__}')
+      return v, (v == m), (v == root)
+    form = rng.choice(['pg', 'method'])
+    chk('json-roundtrip',
+        lambda: back(pg.from_json(pg.to_json(root) if form == 'pg' else root.to_json())),
+        lambda: (m, True, True))
+    chk('json-str-roundtrip',
+        lambda: back(pg.from_json_str(pg.to_json_str(root) if form == 'pg'
+                                      else root.to_json_str())),
+        lambda: (m, True, True))
   if isinstance(m, list):
     chk('iter', lambda: [x for x in root], lambda: m)
     chk('list()', lambda: list(root), lambda: m)
@@ -223,10 +469,54 @@ def cases(ctx):
   return ctx.params['cases']
 
 
+def sym_of(m):
+  m = copy.deepcopy(m)
+  return pg.List(m) if isinstance(m, list) else pg.Dict(m)
+
+
+def needs_notify_off(step, before):
+  """True when `step` applied to the contents `before` agrees with the model
+  once change notification is left on (the mechanism is then '@notify_off')."""
+  if not H.notify_suppressed(step):
+    return False
+  try:
+    fresh, m2 = [sym_of(before)], [copy.deepcopy(before)]
+    s2 = H.without_notify_off(step)
+    ms, mres, _ = model_execute(m2, s2)
+    st, res = O.execute(fresh, s2)
+    if ms != st:
+      return False
+    if st == 'raise' and R.error_class(res) != R.error_class(mres):
+      return False
+    return R.same(R.to_plain(fresh[0]), m2[0])
+  except Exception:  # pylint: disable=broad-except
+    return False
+
+
+def nested_pair(rng, root, m):
+  """A random nested container with its model counterpart (or None)."""
+  nodes = [(n, keys) for n, keys in H.TM.nodes_of(root)
+           if keys and isinstance(n, (pg.List, pg.Dict))]
+  if not nodes:
+    return None
+  n, keys = rng.choice(nodes)
+  try:
+    for k in keys:
+      m = m[k]
+  except (KeyError, IndexError, TypeError):
+    return None
+  if type(m) is not (list if isinstance(n, pg.List) else dict):
+    return None
+  return n, m
+
+
 def run_case(ctx, i):
   rng = ctx.rng
   c = ctx.counters
   d0 = initial(rng)
+  table = d0[1] and all(x[0] in 'LlDd' for x in (
+      d0[1] if d0[0] == 'L' else [v for _, v in d0[1]]))
+  p_multi = 0.35 if rng.random() < 0.5 or table else 0.08
   forest = [D.build(d0)]
   model = [R.build_plain(d0, None)]
   trace, changed = [], 0
@@ -236,7 +526,7 @@ def run_case(ctx, i):
     return
   n_steps = rng.randint(ctx.params['steps'] // 2, ctx.params['steps'])
   for _ in range(n_steps):
-    step = gen_step(rng, forest)
+    step = gen_step(rng, forest, p_multi)
     if step is None:
       break
     before = copy.deepcopy(model[0])
@@ -246,9 +536,14 @@ def run_case(ctx, i):
     ctx.label = None
     c['steps'] += 1
     c['op:' + step['op']] += 1
+    if H.notify_suppressed(step):
+      c['steps_notify_off'] += 1
+    if step.get('multi'):
+      c['multi_member_rebinds'] += 1
+      if H.notify_suppressed(step):
+        c['multi_member_rebinds_notify_off'] += 1
     trace.append(O.show_step(step))
     witness = lambda: {'initial': D.show(d0), 'history': trace[-15:]}
-    mech = step['op']
     problem = None
     if mstatus != status:
       problem = ('outcome', f'model: {mstatus} {mres!r:.200}; symbolic: {status} {res!r:.300}')
@@ -271,9 +566,19 @@ def run_case(ctx, i):
           problem = ('result', f'copy is a {type(res).__name__}')
       elif not R.same(R.to_plain(res), mres):
         problem = ('result', f'model returned {mres!r:.200}, symbolic {R.to_plain(res)!r:.200}')
+    bad = read_checks(ctx, rng, forest[0], model[0])
+    if not bad:
+      # The same read paths on a nested container (it is a list/dict too).
+      pair = nested_pair(rng, forest[0], model[0])
+      if pair is not None:
+        c['nested_read_rounds'] += 1
+        bad = [(cl, 'nested container: ' + dt) for cl, dt in
+               read_checks(ctx, rng, pair[0], pair[1], json_paths=rng.random() < 0.3)]
+    mech = step['op']
+    if (problem or any(cl == 'contents' for cl, _ in bad)) and needs_notify_off(step, before):
+      mech += '@notify_off'
     if problem:
       ctx.violation(problem[0], mech, f'step {len(trace)}: {trace[-1]}\n{problem[1]}', witness())
-    bad = read_checks(ctx, rng, forest[0], model[0])
     seen_clause = set()
     for clause, detail in bad:
       if clause not in seen_clause:
@@ -284,8 +589,7 @@ def run_case(ctx, i):
                       f'step {len(trace)}: {trace[-1]}\n{detail}', witness())
     if problem or bad:
       # heal: re-synchronise the symbolic side from the model
-      forest[0] = pg.from_json(copy.deepcopy(model[0])) if not isinstance(model[0], (list, dict)) else (
-          pg.List(copy.deepcopy(model[0])) if isinstance(model[0], list) else pg.Dict(copy.deepcopy(model[0])))
+      forest[0] = sym_of(model[0])
       c['heals'] += 1
       if read_checks(ctx, rng, forest[0], model[0]):
         c['abandoned'] += 1
